@@ -40,6 +40,23 @@
 (* the == / hash / dict clauses compare it with the node built from the    *)
 (* canonical form.                                                         *)
 (*                                                                         *)
+(* Round 6: the object HEAP is part of the state.  The lifetime of an      *)
+(* expression ends (event Drop(i): the history gives up its only reference *)
+(* to o_i; the interpreter frees it at once) and the address it had is     *)
+(* handed to an object created later - CPython gives the block that was    *)
+(* freed last to the next object of the same size, and all instances of    *)
+(* node classes have one size.  heap = [ad, dead, free, memo]: the address *)
+(* of every object ever created (small integers in order of first          *)
+(* occurrence), which objects are dead, the stack of freed addresses, and  *)
+(* (A-layer, Bug = "AddrMemo" only) what an object remembers about earlier *)
+(* comparisons.  The S-layer never reads an address: whether two live      *)
+(* objects are equal, what they hash to and which key a dict finds is a    *)
+(* matter of their class and fields alone - not of who was compared with   *)
+(* whom before, not of where an object lives and not of who lived there    *)
+(* before it.  Every recorded creation carries the address id it was given *)
+(* (r.ad), so the judge can tell (and reports) that a new object really    *)
+(* sat at the address of a dead one.                                       *)
+(*                                                                         *)
 (*   Check(S, ev, r)   S/M-layer: is observation r allowed by the property *)
 (*                     in state S?  "OK" | "SKIP" | name of failing clause *)
 (*   Post(S, ev, r)    successor state                                     *)
@@ -56,12 +73,13 @@ EXTENDS C01_Values
 CONSTANTS HashMode,   \* "perfect" | "real" | "collide"
           Bug         \* "none" | "DropField" | "StaleHash" | "CopyKeepsHash" | "NaNIdentity"
                       \* | "ClassMemo" | "PickleKeepsHash" | "NoIdentityPath" | "KwDropped"
-                      \* | "NominalHashable"
-VARIABLES objs, dict, last, cmemo
+                      \* | "NominalHashable" | "AddrMemo"
+VARIABLES objs, dict, last, cmemo, heap
 
 NoHash == [t |-> "None"]
-S0 == [objs |-> << >>, dict |-> << >>, cm |-> {}]
-Cur == [objs |-> objs, dict |-> dict, cm |-> cmemo]
+Heap0 == [ad |-> << >>, dead |-> {}, free |-> << >>, memo |-> << >>]
+S0 == [objs |-> << >>, dict |-> << >>, cm |-> {}, hp |-> Heap0]
+Cur == [objs |-> objs, dict |-> dict, cm |-> cmemo, hp |-> heap]
 
 Ev(op, i, j, fn, md, v, spec) ==
     [op |-> op, i |-> i, j |-> j, fn |-> fn, md |-> md, v |-> v, spec |-> spec]
@@ -81,8 +99,11 @@ EvPut(i, v)        == Ev("DictPut", i, 0, "", "", v, NoneV)
 EvGet(j)           == Ev("DictGet", j, 0, "", "", 0, NoneV)
 \* the caller of o_i's constructor mutates the live containers it passed to it
 EvMutate(i)        == Ev("Mutate", i, 0, "", "", 0, NoneV)
+\* round 6: the history gives up its reference to o_i; the object dies, its address is free
+EvDrop(i)          == Ev("Drop", i, 0, "", "", 0, NoneV)
 
-Res(k, b, h, exc, v, proj) == [k |-> k, b |-> b, h |-> h, exc |-> exc, v |-> v, proj |-> proj]
+\* ad: the address (id per trace) of the object the step created, 0 when it created none
+Res(k, b, h, exc, v, proj) == [k |-> k, b |-> b, h |-> h, exc |-> exc, v |-> v, proj |-> proj, ad |-> 0]
 
 (***************************************************************************)
 (* The meaning of o_i == o_j for tracked objects: "T" / "F" / "U" (either  *)
@@ -127,6 +148,10 @@ DictKeysDistinctOn(S) ==
         a # b => EqM(S, S.dict[a].key, S.dict[b].key) # "T"
 
 ValidIdx(S, i) == i \in 1..Len(S.objs)
+\* o_i exists and its lifetime has not ended
+Alive(S, i) == ValidIdx(S, i) /\ i \notin S.hp.dead
+LiveIdx(S) == { i \in 1..Len(S.objs) : i \notin S.hp.dead }
+IsKey(S, i) == \E e \in 1..Len(S.dict) : S.dict[e].key = i
 \* an object that was built by its constructor in this interpreter at this step
 BuiltHere(ev, r) == ev.op = "New" /\ ev.md = "" /\ r.k = "new"
 \* the arguments are ones the constructor accepts and makes a hashable node of
@@ -136,12 +161,18 @@ Creates(ev) == ev.op \in {"New", "Copy", "Replace", "Touch"}
 \* Is the recorded step well-formed enough to be judged at all?
 Judgeable(S, ev, r) ==
     /\ ev.op \in {"New", "Hash", "Eq", "Ne", "SetAttr", "DelAttr", "Copy", "Replace", "Touch",
-                  "DictPut", "DictGet", "Mutate"}
-    /\ ev.op # "New" => ValidIdx(S, ev.i)
+                  "DictPut", "DictGet", "Mutate", "Drop"}
+    \* nothing can be done with (or asked of) an object whose lifetime has ended
+    /\ ev.op # "New" => Alive(S, ev.i)
+    \* a key of the dict under test is kept alive by the dict: giving up the history's own
+    \* reference does not end its lifetime (not generated)
+    /\ ev.op = "Drop" => (~IsKey(S, ev.i) /\ r.k = "ok")
+    \* a creation is recorded with the address the new object got
+    /\ (Creates(ev) /\ r.k = "new") => r.ad > 0
     \* whether an expression can be pickled at all is C17's business
     /\ r.k # "nopickle"
-    /\ ev.op \in {"Eq", "Ne", "Replace"} => ValidIdx(S, ev.j)
-    /\ (ev.op = "SetAttr" /\ ev.j # 0) => ValidIdx(S, ev.j)
+    /\ ev.op \in {"Eq", "Ne", "Replace"} => Alive(S, ev.j)
+    /\ (ev.op = "SetAttr" /\ ev.j # 0) => Alive(S, ev.j)
     /\ IF Creates(ev) /\ r.k = "new" THEN Len(r.proj) = Len(S.objs) + 1
                                      ELSE Len(r.proj) = Len(S.objs)
     /\ \A k \in 1..Len(r.proj) : r.proj[k].tree.t = "N" /\ Decidable(r.proj[k].tree)
@@ -200,10 +231,25 @@ PostObjs(S, ev, r) ==
                     ELSE IF r.proj[k].hashed = 1 THEN r.proj[k].h ELSE NoHash
         IN [tree |-> r.proj[k].tree, hashed |-> r.proj[k].hashed, hk |-> hk, hid |-> hid]]
 
+\* the heap after a step: a created object sits at the address it was given (no longer
+\* free, if it was), a dropped object is dead and its address free
+Without(q, a) == SelectSeq(q, LAMBDA z : z # a)
+HeapAfter(S, ev, r) ==
+    LET h == S.hp IN
+    IF Creates(ev) /\ r.k = "new"
+    THEN [h EXCEPT !.ad = Append(@, r.ad), !.free = Without(@, r.ad), !.memo = Append(@, 0)]
+    ELSE IF ev.op = "Drop" /\ r.k = "ok"
+    THEN [h EXCEPT !.dead = @ \cup {ev.i}, !.free = Append(@, h.ad[ev.i])]
+    ELSE h
+\* objects that were given the address of an object created before them (which was dead
+\* by then: two live objects never share an address)
+OnReusedAddr(h) == { k \in 1..Len(h.ad) : \E k2 \in 1..(k - 1) : h.ad[k2] = h.ad[k] }
+
 Post(S, ev, r) ==
     [objs |-> PostObjs(S, ev, r),
      dict |-> IF ev.op = "DictPut" /\ r.k = "ok" THEN DictAfterPut(S, ev.i, ev.v) ELSE S.dict,
-     cm   |-> CmAfter(S, ev)]
+     cm   |-> CmAfter(S, ev),
+     hp   |-> HeapAfter(S, ev, r)]
 
 ImmutableStep(S, ev, r) ==
     /\ \A k \in 1..Len(S.objs) : r.proj[k].tree = S.objs[k].tree
@@ -334,6 +380,9 @@ ImplEq(S, i, j) ==
     IF i = j THEN (IF Bug = "NoIdentityPath" THEN SelfValEq(a, FALSE) ELSE TRUE)
     ELSE IF TmplOf(a.cls) # "legacy" /\ a.cls # b.cls THEN FALSE
     ELSE IF ImplHash(S.cm, S.objs[i]) # ImplHash(S.cm, S.objs[j]) THEN FALSE
+    \* Bug = "AddrMemo": "whom did I compare equal to last?" remembered by ADDRESS and
+    \* trusted - the object that lives there now need not be the one that was compared
+    ELSE IF Bug = "AddrMemo" /\ S.hp.memo[i] = S.hp.ad[j] THEN TRUE
     ELSE IF TmplOf(a.cls) = "legacy" THEN
          a.cls = b.cls /\ Len(a.f) = Len(b.f) /\ \A k \in 1..Len(a.f) : ImplValEq(a.f[k], b.f[k], TRUE)
     ELSE IF Bug = "NaNIdentity" /\ a.cls = "NaN" THEN FALSE
@@ -456,6 +505,8 @@ PredictH(S, ev) ==
       \* the constructor copied what it was given (or it was immutable): nothing to see
       [] ev.op = "Mutate" ->
            Res("ok", 0, NoHash, "", 0, Proj([os EXCEPT ![ev.i].tree = Mutated(os[ev.i].tree)]))
+      \* the end of a lifetime shows nothing (a dead object keeps its last projection)
+      [] ev.op = "Drop" -> Res("ok", 0, NoHash, "", 0, Proj(os))
       [] ev.op = "Hash" ->
            LET os2 == WithHashed(S.cm, os, {ev.i}) IN
            Res("ok", 0, os2[ev.i].hid, "", 0, Proj(os2))
@@ -527,11 +578,36 @@ PredictH(S, ev) ==
            IN Res("ok", 0, NoHash, "", IF hits = {} THEN -1
                   ELSE S.dict[CHOOSE e \in hits : \A e2 \in hits : e <= e2].v, Proj(os2))
 
+\* the allocator: the block freed last goes to the next object (all node instances have
+\* one size); otherwise a block no tracked object ever had
+MaxAddr(h) == IF h.ad = << >> THEN 0
+              ELSE LET A == { h.ad[k] : k \in 1..Len(h.ad) } IN CHOOSE m \in A : \A z \in A : z <= m
+AllocAddr(h) == IF h.free # << >> THEN h.free[Len(h.free)] ELSE MaxAddr(h) + 1
+
 \* an operation that hashes an object whose hash raises, raises
 Predict(S, ev) ==
-    IF \/ (ev.op \in {"Hash", "DictPut", "DictGet"} /\ Unh(S.objs, {ev.i}))
-       \/ (ev.op \in {"Eq", "Ne"} /\ Unh(S.objs, EqHashes(S, ev.i, ev.j)))
-    THEN RaisesTE(S.objs) ELSE PredictH(S, ev)
+    LET r == IF \/ (ev.op \in {"Hash", "DictPut", "DictGet"} /\ Unh(S.objs, {ev.i}))
+                \/ (ev.op \in {"Eq", "Ne"} /\ Unh(S.objs, EqHashes(S, ev.i, ev.j)))
+             THEN RaisesTE(S.objs) ELSE PredictH(S, ev)
+    IN IF Creates(ev) /\ r.k = "new" THEN [r EXCEPT !.ad = AllocAddr(S.hp)] ELSE r
+
+\* Bug = "AddrMemo": what the objects remember after a step.  o == p that comes out equal
+\* leaves the address of p in o; a dict look-up with o_i asks every stored key with the
+\* same hash (other than o_i itself) "key == o_i"
+MemoAfter(S, ev) ==
+    LET m == S.hp.memo IN
+    IF Bug # "AddrMemo" THEN m
+    ELSE CASE ev.op \in {"Eq", "Ne"} /\ ev.i # ev.j ->
+                IF ImplEq(S, ev.i, ev.j) THEN [m EXCEPT ![ev.i] = S.hp.ad[ev.j]] ELSE m
+           [] ev.op \in {"DictGet", "DictPut"} ->
+                LET os2 == WithHashed(S.cm, S.objs, {ev.i})
+                    S2  == [S EXCEPT !.objs = os2]
+                    ks  == { S.dict[e].key : e \in { e2 \in 1..Len(S.dict) :
+                               /\ S.dict[e2].key # ev.i
+                               /\ ImplHash(S.cm, os2[S.dict[e2].key]) = ImplHash(S.cm, os2[ev.i])
+                               /\ ImplEq(S2, S.dict[e2].key, ev.i) } }
+                IN [k \in 1..Len(m) |-> IF k \in ks THEN S.hp.ad[ev.i] ELSE m[k]]
+           [] OTHER -> m
 
 \* A-layer drift: does the recorded step differ from what the transcription predicts
 \* (in anything but the hash values themselves)?
@@ -557,7 +633,7 @@ Drift(S, ev, r) ==
 (***************************************************************************)
 (* The model as a state machine over the variables                         *)
 (***************************************************************************)
-ModelInit == objs = << >> /\ dict = << >> /\ cmemo = {} /\ last = [ev |-> EvNew(NoneV), chk |-> "OK", dev |-> ""]
+ModelInit == objs = << >> /\ dict = << >> /\ cmemo = {} /\ heap = Heap0 /\ last = [ev |-> EvNew(NoneV), chk |-> "OK", dev |-> ""]
 
 (***************************************************************************)
 (* Named deviation (found by TLC on the model before any code ran): an     *)
@@ -588,7 +664,8 @@ ModelPost(S, ev, r) ==
                              ELSE IF old THEN S.objs[k].hid ELSE NoHash
                  IN [tree |-> r.proj[k].tree, hashed |-> r.proj[k].hashed, hk |-> hk, hid |-> hid]],
      dict |-> IF ev.op = "DictPut" /\ r.k = "ok" THEN DictAfterPut(S, ev.i, ev.v) ELSE S.dict,
-     cm   |-> CmAfter(S, ev)]
+     cm   |-> CmAfter(S, ev),
+     hp   |-> HeapAfter([S EXCEPT !.hp.memo = MemoAfter(S, ev)], ev, r)]
 
 Step(ev) ==
     LET r == Predict(Cur, ev)
@@ -596,6 +673,7 @@ Step(ev) ==
     IN /\ objs' = n.objs
        /\ dict' = n.dict
        /\ cmemo' = n.cm
+       /\ heap' = n.hp
        /\ last' = [ev |-> ev, chk |-> Check(Cur, ev, r),
                    dev |-> IF Dev_LegacyMutable(Cur, ev) THEN "Dev_LegacyMutable" ELSE ""]
 
@@ -610,6 +688,6 @@ NoSkipInModel   == last.chk # "SKIP"
 CopyFaithful    == last.chk # "CopyKeepsFields"
 BuiltOK         == last.chk \notin {"BuiltHashable", "BuiltAsGiven"}
 \* --- action properties ---------------------------------------------------
-Immutable  == [][Deviated' \/ \A k \in 1..Len(objs) : objs'[k].tree = objs[k].tree]_<<objs, dict, last, cmemo>>
-HashStable == [][\A k \in 1..Len(objs) : objs[k].hk = 1 => objs'[k].hid = objs[k].hid]_<<objs, dict, last, cmemo>>
+Immutable  == [][Deviated' \/ \A k \in 1..Len(objs) : objs'[k].tree = objs[k].tree]_<<objs, dict, last, cmemo, heap>>
+HashStable == [][\A k \in 1..Len(objs) : objs[k].hk = 1 => objs'[k].hid = objs[k].hid]_<<objs, dict, last, cmemo, heap>>
 =============================================================================
